@@ -2,7 +2,7 @@
     (used as a per-case validation of the rule preparation in both hydrogen modes). *)
 From Coq Require Import List NArith ZArith Bool Lia Permutation.
 From SK Require Import lib.Tok lib.LGraph model.C03_Model model.C04_Model proof.C03_Proof proof.C03_Glue proof.C03_Backward
-                       proof.C04_Glue proof.C04_Template.
+                       proof.C04_Glue proof.C04_Template proof.C04_Any.
 Import ListNotations.
 Local Open Scope Z_scope.
 
@@ -61,4 +61,14 @@ Proof.
   - exact (identity_match_rc A B rc D).
   - destruct (identity_glue_some A B rc PW D) as [T ET]. exists T. split; [exact ET|].
     exact (regen_exact_true A B rc PW D T ET).
+Qed.
+
+(** ... and so does the identity composed with any symmetry of that rule (what the pruning may keep instead) *)
+Theorem glue_any_rule_symmetric (A B : hostg) (rc : its) (s s' : N -> N) :
+  pair_wfb A B = true -> describesb A B rc = true -> rule_aut rc s s' ->
+  match_rcb A rc (aut_map rc s) = true /\
+  exists T : its, glue A rc (aut_map rc s) = Some T /\ regen_exact T A B = true.
+Proof.
+  intros W Hd RA. destruct (pair_wfb_sound A B W) as (PW & _ & _).
+  exact (aut_regen A B rc s s' PW (describesb_sound A B rc PW Hd) RA).
 Qed.
